@@ -222,40 +222,53 @@ def overlap (start0 length0 start1 length1 : Nat) : Option (Nat × Nat) :=
   let right := min (start0 + length0) (start1 + length1)
   if left < right then some (left, right - left) else none
 
+/-- `Segmentation._got_segment` on one delivered segment: `none` = WrongSegmentError ("I was given the
+    wrong data": no overlap, or the overlap does not start at `offset`), otherwise the bytes written
+    to the consumer (`segment[offset_in_segment : offset_in_segment + o[1]]`) -/
+def gotSegment (segStart : Nat) (segment : Bytes) (offset size : Nat) : Option Bytes :=
+  match overlap segStart segment.length offset size with
+  | none => none
+  | some (o0, o1) => if o0 ≠ offset then none else some ((segment.drop (offset - segStart)).take o1)
+
 /-- The loop `_fetch_next` → `get_segment` → `_got_segment` (→ `_retry_bad_segment`) of one
     `Segmentation`.  `known`: the node already has the real segment size (`n.segment_size is not None`),
     otherwise the guess is used and one WrongSegmentError/BadSegmentNumberError is forgiven; after any
     answered `get_segment` the real size is known.  `fuel` bounds the recursion (each round consumes
     either a byte or the one retry); running out is reported as `assertion`.
-    Returns the chunks handed to `consumer.write`, in order. -/
+    Returns one event per `get_segment` call: the segment number asked for and the chunk handed to
+    `consumer.write` (`none` when the answer was unusable and the request is retried). -/
 def segLoop (getSeg : Nat → Except Err (Nat × Bytes)) (segsize guessed : Nat) :
-    Nat → Bool → Nat → Nat → Except Err (List Bytes)
+    Nat → Bool → Nat → Nat → Except Err (List (Nat × Option Bytes))
   | 0, _, _, size => if size = 0 then .ok [] else .error .assertion
   | fuel + 1, known, offset, size =>
     if size = 0 then .ok []
     else
       let segmentSize := if known then segsize else guessed     -- `n.segment_size or n.guessed_segment_size`
       let wanted := if offset = 0 then 0 else offset / segmentSize
+      let retry : Except Err (List (Nat × Option Bytes)) :=
+        if known then .error .badSegment
+        else match segLoop getSeg segsize guessed fuel true offset size with
+          | .error e => .error e
+          | .ok rest => .ok ((wanted, none) :: rest)
       match getSeg wanted with
-      | .error .badSegment =>
-          if known then .error .badSegment else segLoop getSeg segsize guessed fuel true offset size
+      | .error .badSegment => retry
       | .error e => .error e
       | .ok (segStart, segment) =>
-        match overlap segStart segment.length offset size with
-        | none => if known then .error .badSegment else segLoop getSeg segsize guessed fuel true offset size
-        | some (o0, o1) =>
-          if o0 ≠ offset then
-            (if known then .error .badSegment else segLoop getSeg segsize guessed fuel true offset size)
-          else
-            let offsetInSegment := offset - segStart
-            let desired := (segment.drop offsetInSegment).take o1
-            match segLoop getSeg segsize guessed fuel true (offset + desired.length) (size - desired.length) with
-            | .error e => .error e
-            | .ok rest => .ok (desired :: rest)
+        match gotSegment segStart segment offset size with
+        | none => retry
+        | some desired =>
+          match segLoop getSeg segsize guessed fuel true (offset + desired.length) (size - desired.length) with
+          | .error e => .error e
+          | .ok rest => .ok ((wanted, some desired) :: rest)
 
-/-- `CiphertextFileNode.read(consumer, offset, size)`: the chunks written to the consumer -/
-def readCiphertext {Key : Type} (c : Codec) (u : Uploaded Key) (pick : Nat → List Nat) (defaultMaxSeg : Nat)
-    (known : Bool) (offset : Nat) (size : Option Nat) : Except Err (List Bytes) :=
+/-- the chunks written to the consumer, in order -/
+def chunksOf (evs : List (Nat × Option Bytes)) : List Bytes := evs.filterMap (·.2)
+
+/-- `CiphertextFileNode.read(consumer, offset, size)`: the `get_segment` calls and consumer writes.
+    (`guessed = 0` would be a ZeroDivisionError in `offset // segment_size`; it needs
+    `default_max_segment_size = 0`, which the theorems exclude by hypothesis.) -/
+def readEvents {Key : Type} (c : Codec) (u : Uploaded Key) (pick : Nat → List Nat) (defaultMaxSeg : Nat)
+    (known : Bool) (offset : Nat) (size : Option Nat) : Except Err (List (Nat × Option Bytes)) :=
   match calculateSizes u.size u.k u.ueb.segmentSize with
   | .error e => .error e
   | .ok d =>
@@ -263,6 +276,10 @@ def readCiphertext {Key : Type} (c : Codec) (u : Uploaded Key) (pick : Nat → L
     if sz = 0 then .ok []
     else segLoop (getSegment c u d pick) u.ueb.segmentSize (guessedSegSize u.size u.k defaultMaxSeg)
            (sz + 2) known offset sz
+
+def readCiphertext {Key : Type} (c : Codec) (u : Uploaded Key) (pick : Nat → List Nat) (defaultMaxSeg : Nat)
+    (known : Bool) (offset : Nat) (size : Option Nat) : Except Err (List Bytes) :=
+  (readEvents c u pick defaultMaxSeg known offset size).map chunksOf
 
 /-- `ImmutableFileNode.read`: the ciphertext chunks pass through one `DecryptingConsumer` -/
 def read {Key : Type} (ks : Key → Nat → Block16) (c : Codec) (u : Uploaded Key) (pick : Nat → List Nat)
